@@ -14,7 +14,7 @@ from .simsched import Scheduler, SimQueue, SimEvent, SimLock, SharedFlag, fork_c
 
 class Cfg:
     def __init__(self, n_workers=2, work_cap="default", res_cap=None, factory=False, quota=None, wait_ready=False,
-                 calls=((3, 1, True),), begin_fault=(), item_fault=()):
+                 calls=((3, 1, True),), begin_fault=(), item_fault=(), ready_mid=False):
         """calls: (number of items, chunk_size, ordered)"""
         self.n_workers = n_workers
         self.work_cap = work_cap  # "default" (1.0) | None | int | float
@@ -25,6 +25,8 @@ class Cfg:
         self.calls = [tuple(c) for c in calls]
         self.begin_fault = list(begin_fault)
         self.item_fault = [tuple(x) for x in item_fault]
+        # search-only scenario beyond the model's caller program: `until_all_ready()` is also called in the middle of a call
+        self.ready_mid = ready_mid
 
     def work_cap_int(self):
         wc = 1.0 if self.work_cap == "default" else self.work_cap
@@ -44,7 +46,7 @@ class Cfg:
     def to_json(self):
         return dict(n_workers=self.n_workers, work_cap=self.work_cap, res_cap=self.res_cap, factory=self.factory,
                     quota=self.quota, wait_ready=self.wait_ready, calls=self.calls, begin_fault=self.begin_fault,
-                    item_fault=self.item_fault)
+                    item_fault=self.item_fault, ready_mid=self.ready_mid)
 
 
 class SimEnv:
@@ -60,6 +62,7 @@ class SimEnv:
         self.logs = {}  # wid -> list of events (harness side, shared with the fork copies)
         self.crashed = {}
         self.results = []  # per call: list of yielded values
+        self.ready_violations = []
         self.patches = []
         self.pool = None
         self.workers = []
@@ -220,6 +223,9 @@ class SimEnv:
                 env.sched.visible(f"join W{self.wid}", lambda: self._sim_thread is not None and self._sim_thread.finished)
                 env.sched.record(f"join W{self.wid}")
 
+            def is_alive(self):
+                return self._sim_thread is not None and not self._sim_thread.finished
+
             @property
             def exitcode(self):
                 if self._sim_thread is not None and self._sim_thread.finished:
@@ -260,8 +266,16 @@ class SimEnv:
                 res = []
                 self.results.append(res)
                 it = pool.imap(data, cs) if ordered else pool.imap_unordered(data, cs)
+                first = True
                 for x in it:
                     res.append(x)
+                    if first and self.cfg.ready_mid:
+                        first = False
+                        pool.until_all_ready()
+                        # at the moment it returns, every worker the pool lists must have completed begin()
+                        late = [p.wid for p in pool.procs if not p.begin_finished.flag]
+                        if late:
+                            self.ready_violations.append(late)
         finally:
             pool.__exit__(None, None, None)
 
